@@ -79,6 +79,8 @@ def classify(sig, fam):
         return "KF-C01-cmp-signed-mixed" if re.search(r"s8\) < 5\)", sig) else None
     if fam == "F5d":
         return "KF-C01-cmp-signed-mixed" if "sgn(" in sig else None
+    if fam == "F5h":
+        return "KF-C01-cmp-signed-mixed" if re.search(r"if \(s8 < 3\)", sig) else None
     return None
 
 
